@@ -1,3 +1,10 @@
+mod c54;
+mod selftest;
+mod util;
+
 fn main() {
-    vmon::run_main(&[]);
+    vmon::run_main(&[
+        ("SELFTEST", selftest::run),
+        ("C54", c54::run),
+    ]);
 }
